@@ -24,11 +24,6 @@ func NewMemoryHeightIterator(dataset map[string]string, start string, end string
 			return &MemoryHeightIterator{endIdx: -1, startIdx: 1}
 		}
 	}
-	if start > end {
-		tmp := start
-		start = end
-		end = tmp
-	}
 	if len(sortedKeys) == 0 {
 		sortedKeys = make([]string, 0, len(dataset))
 		for k, _ := range dataset {
@@ -38,19 +33,11 @@ func NewMemoryHeightIterator(dataset map[string]string, start string, end string
 	}
 	startIdx := 0
 	if start != "" { // this is a risky assumption -- what's the diff between string([]bytes{}) and (string[]bytes(nil)) ? those are considered smallest and largest by iavl.
-		for ; startIdx < len(sortedKeys)-1; startIdx++ {
-			if sortedKeys[startIdx] >= start {
-				break
-			}
-		}
+		startIdx = sort.SearchStrings(sortedKeys, start) // first key >= start
 	}
 	endIdx := len(sortedKeys) - 1
 	if end != "" {
-		for ; endIdx > 0 && endIdx > startIdx; endIdx-- {
-			if sortedKeys[endIdx] <= end {
-				break
-			}
-		}
+		endIdx = sort.SearchStrings(sortedKeys, end) - 1 // last key < end (end is exclusive)
 	}
 	curIdx := startIdx
 	if !ascending {
@@ -78,10 +65,7 @@ func (m *MemoryHeightIterator) Domain() (start []byte, end []byte) {
 }
 
 func (m *MemoryHeightIterator) Valid() bool {
-	if m.endIdx < m.startIdx || m.curIdx > m.endIdx {
-		return false
-	}
-	if (m.end != "" && m.sortedKeys[m.curIdx] >= m.end) || (m.start != "" && m.sortedKeys[m.curIdx] < m.start) {
+	if m.endIdx < m.startIdx || m.curIdx > m.endIdx || m.curIdx < m.startIdx {
 		return false
 	}
 	if m.sortedKeys == nil || m.dataset == nil {
@@ -89,6 +73,9 @@ func (m *MemoryHeightIterator) Valid() bool {
 	}
 	if m.curIdx < 0 || m.curIdx > len(m.sortedKeys)-1 {
 		return false // out of range!
+	}
+	if (m.end != "" && m.sortedKeys[m.curIdx] >= m.end) || (m.start != "" && m.sortedKeys[m.curIdx] < m.start) {
+		return false
 	}
 	return true
 
